@@ -32,5 +32,12 @@ for sel, nm in enumerate(['trim_left', 'trim_right', 'trim']):
 for w, wn in enumerate(['before_first', 'after_first', 'before_last', 'after_last']):
     for k, kn in enumerate(['char', 'cstr', 'string']):
         job('string_slice', 'str.%s.%s' % (wn, kn), 'h_str_before_after', ['C08'], defines=['BA_WHICH=%d' % w, 'BA_SEPKIND=%d' % k], timeout=900, expect=[r'slice\.postcondition\.[1-6]'])
+# ---- C07 (and C08 before_last/after_last): find_last
+unit('string_findlast', functions=['ST_string__find_last', 'ST_string_find_last__sz_c_case_sensitivity_t_k'], stubs=LEAF_STUBS, spec='contracts/string_findlast.spec', harness='harness/string_findlast.c', include=INC)
+job('string_findlast', 'str.find_last_needle', 'h_str_find_last_needle', ['C07', 'C08'], timeout=1500, solver='cadical', expect=[r'ST_string_find_last\.postcondition\.[1-4]', r'ST_string__find_last\.loop0\.invariant_step', r'ST_string__find_last\.loop0\.decreases'])
+job('string_findlast', 'str.find_last_char', 'h_str_find_last_char', ['C07', 'C08'], timeout=900, expect=[r'ST_string_find_last_char\.postcondition\.[1-4]', r'ST_string_find_last__sz_c_case_sensitivity_t_k\.loop0\.invariant_step'])
+FLF = ['ST_string_find_last__%s_case_sensitivity_t_k' % a for a in ('pc', 'sz_pc', 'pc_sz', 'sz_pc_sz', 'rstring', 'sz_rstring')]
+unit('string_findlast_fwd', functions=FLF, stubs=LEAF_STUBS + ['ST_string__find_last'], spec=None, harness='harness/string_findlast.c', include=INC)
+job('string_findlast_fwd', 'str.find_last_forward', 'h_str_find_last_forward', ['C07'], expect=[r'ST_string_find_last_forward\.postcondition\.[12]'])
 PROPS['C08'] = dict(level='proof', explanation='substr/left/right proved against the clamp specification of the property text for every start, count and size (no oversized allocation request: operator new[] stub asserts it); trim loops proved for unbounded length against an uninterpreted membership predicate; before/after are compositions over the search contracts and the real substr/left: before + separator + after reassembles the original',
     trusted_base=['char_traits<char>::find/length/copy contracts (prelude.h)', 'leaf search contracts (harness/leaf_stubs.h), each clause proved in the C07 leaf jobs'], assumptions=[])
